@@ -60,11 +60,17 @@ func appFree(s *sim.S, m *mangos.Message) {
 // appSend hands m to send; on failure the message must still be the caller's, body intact.
 func appSend(s *sim.S, m *mangos.Message, send func(*mangos.Message) error) error {
 	if !ledgerOn.Load() {
+		hadHdr := len(m.Header) > 0
 		before := digest(m.Header) + digest(m.Body)
 		err := send(m)
 		if err != nil {
-			// a failed Send leaves the message with the caller, header and body as they were: it could be sent again
-			if digest(m.Header)+digest(m.Body) != before {
+			// a failed Send leaves the message with the caller: the body as it was, and so the header the caller
+			// put there (raw sockets; a cooked socket writes its own header and may have begun to)
+			now := digest(m.Header) + digest(m.Body)
+			if !hadHdr {
+				now = digest(nil) + digest(m.Body)
+			}
+			if now != before {
 				s.Rec.Emit("sendfailchanged", "r", err, "hl", len(m.Header), "len", len(m.Body))
 			}
 			m.Free()
